@@ -40,6 +40,18 @@ def known_match(failure, case, hyp_violated):
     return None
 
 
+def case_gen(rng, k):
+    if k % 8 == 2: return gen.gen_nested_case(rng)
+    if k % 4 == 3: return gen.gen_reentry_case(rng)
+    if k % 8 == 6: return gen.gen_loop_case(rng)
+    case = gen.gen_case(rng, groups=True)
+    if k % 8 in (0, 5):
+        # events announced for times at or after the end: initial events (also delayed starts) at until, until+1, ...
+        for i in rng.sample(range(case['n']), rng.randint(1, min(2, case['n']))):
+            case['init'] = [x for x in case['init'] if x[0] != i] + [[i, case['until'] + rng.choice([0, 0, 1, 3])]]
+    return case
+
+
 def run(out, info, tier, seed):
     out.trusted_base = common.COMMON_TRUSTED + [
         'modelled by hand: sim_process/next_step_settled/wait_for_dependencies/step/get_outputs/notify_dependencies/advance_progress/'
@@ -48,7 +60,7 @@ def run(out, info, tier, seed):
         'theorem premise static_ok (shape facts; the ancestors table dominates every trigger path) is checked per scenario by comparing the model-built tables with the implementation, not yet discharged by a closure theorem']
     out.assumptions = ['simulators are an oracle: any reply sequence (event list); delays that are compared have equal shape (convex group scenarios)']
     sched_check.sched_property(out, info, tier, seed, 'C05', KINDS, P_C05, gen_opts={'groups': True},
-                               case_gen=lambda rng, k: gen.gen_nested_case(rng) if k % 8 == 2 else gen.gen_reentry_case(rng) if k % 4 == 3 else gen.gen_loop_case(rng) if k % 8 == 6 else gen.gen_case(rng, groups=True),
+                               case_gen=case_gen,
                                ncases=(110, 1500), variants=[(True, True), (False, True), (True, False)], nontrivial=nontrivial, features=features,
                                known_match=known_match, hyp=None,
                                extra_obligations=[('Sched.Inv (invariant preserved by every event)', 'Sched/Inv'),
